@@ -256,6 +256,10 @@ func (c *Ctx) derivedFrom(v, src ssa.Value, depth int) bool {
 		return c.derivedFrom(x.X, src, depth-1)
 	case *ssa.Convert:
 		return c.derivedFrom(x.X, src, depth-1)
+	case *ssa.TypeAssert:
+		return c.derivedFrom(x.X, src, depth-1)
+	case *ssa.Lookup:
+		return c.derivedFrom(x.X, src, depth-1)
 	case *ssa.MakeInterface:
 		return c.derivedFrom(x.X, src, depth-1)
 	case *ssa.ChangeInterface:
@@ -289,7 +293,7 @@ func (c *Ctx) derivedFrom(v, src ssa.Value, depth int) bool {
 
 // ---------------------------------------------------------------- PIPE
 
-type stage struct {
+type Stage struct {
 	In     string // function that contains the call
 	Callee string // FuncID of the stage ("" for the invoke of PostProcessor.Apply)
 	Method string // interface method name for invoke stages
@@ -298,7 +302,7 @@ type stage struct {
 	Extra  string // second gate (field that must be non-nil), informational
 }
 
-var pipeStages = []stage{
+var pipeStages = []Stage{
 	{In: "loader.loadYamlFile$1", Callee: "interpolation.Interpolate", Flag: "SkipInterpolation", When: false},
 	{In: "loader.loadYamlFile$1", Callee: "loader.fixEmptyNotNull"},
 	{In: "loader.loadYamlFile$1", Callee: "loader.ApplyExtends", Flag: "SkipExtends", When: false},
@@ -356,7 +360,7 @@ func (c *Ctx) flagFacts(b *ssa.BasicBlock, flags map[string]bool) map[string]boo
 }
 
 // PIPE: stage wiring.
-func (c *Ctx) PIPE(rule string, only func(stage) bool) []report.Obligation {
+func (c *Ctx) PIPE(rule string, only func(Stage) bool) []report.Obligation {
 	var out []report.Obligation
 	flags := c.optionFlags()
 	if len(flags) < 8 {
